@@ -70,10 +70,16 @@ type scen struct {
 	Batch    int    `json:"batch_size"` // HQ producer/consumer batch size
 	P        int    `json:"p"`
 	F        int    `json:"f"`
+	// Conc: --hq-batch-concurrency (0 = 1): that many gets in flight at once, each for a share of the batch
+	Conc int `json:"hq_batch_concurrency,omitempty"`
 }
 
 func (s *scen) name() string {
-	return fmt.Sprintf("%s outlinks=%s workers=%d batch=%d", s.Queue, s.Outlinks, s.Workers, s.Batch)
+	n := fmt.Sprintf("%s outlinks=%s workers=%d batch=%d", s.Queue, s.Outlinks, s.Workers, s.Batch)
+	if s.Conc > 1 {
+		n += fmt.Sprintf(" get-concurrency=%d", s.Conc)
+	}
+	return n
 }
 
 // ---------------------------------------------------------------- fake crawl HQ
@@ -90,31 +96,43 @@ type call struct {
 }
 
 type fakeHQ struct {
-	mu       hkit.Mutex
-	urls     []*hqURL
-	nextID   int
-	calls    []call
-	eligible int // fault-eligible calls so far
-	deleted  []string
-	addOK    [][]gocrawlhq.URL // payloads of successful adds
+	mu           hkit.Mutex
+	urls         []*hqURL
+	nextID       int
+	calls        []call
+	eligible     int // fault-eligible calls so far
+	eligibleGets int
+	getLatency   time.Duration // virtual time one get takes
+	deleted      []string
+	addOK        [][]gocrawlhq.URL // payloads of successful adds
 }
 
 var answers = []string{"ok", "500", "503", "reset", "timeout-after-commit"}
 
 func (h *fakeHQ) RoundTrip(req *http.Request) (*http.Response, error) {
 	op := req.Method
+	if h.getLatency > 0 && op == "GET" {
+		// With --hq-batch-concurrency > 1 Zeno polls an empty feed without pausing (getURLs swallows "feed is
+		// empty"): a round trip that takes no time would keep the virtual clock from ever advancing
+		time.Sleep(h.getLatency)
+	}
 	// environment answer: the first 8 add/delete calls and the first 2 gets may fail
 	ans := 0
 	h.mu.Lock()
-	nGets := 0
-	for _, c := range h.calls {
-		if c.Op == "GET" {
-			nGets++
+	// a get is worth failing when there is something to hand out (a failed get of an empty feed changes nothing):
+	// the first 2 such gets are eligible, whichever of the concurrent fetchers issues them
+	waiting := 0
+	for _, x := range h.urls {
+		if !x.Claimed {
+			waiting++
 		}
 	}
-	elig := (op != "GET" && h.eligible < 8) || (op == "GET" && nGets < 2)
+	elig := (op != "GET" && h.eligible < 8) || (op == "GET" && waiting > 0 && h.eligibleGets < 2)
 	if elig && op != "GET" {
 		h.eligible++
+	}
+	if elig && op == "GET" {
+		h.eligibleGets++
 	}
 	h.mu.Unlock()
 	if elig {
@@ -215,12 +233,15 @@ func scenario(s *scen) *vsched.Scenario {
 		hq.VerifReset()
 		lq.VerifC15Reset()
 		o = &obs{hq: &fakeHQ{}}
+		if s.Conc > 1 {
+			o.hq.getLatency = 100 * time.Millisecond
+		}
 		dir, err := os.MkdirTemp(os.Getenv("VERIF_TMP"), "c15-")
 		if err != nil {
 			panic(err)
 		}
 		o.dir = dir
-		config.VerifSet(&config.Config{Job: "verif", JobPath: dir, WorkersCount: s.Workers, HQBatchSize: s.Batch, HQBatchConcurrency: 1,
+		config.VerifSet(&config.Config{Job: "verif", JobPath: dir, WorkersCount: s.Workers, HQBatchSize: s.Batch, HQBatchConcurrency: max(1, s.Conc),
 			HQProject: "verif", UseHQ: s.Queue == "hq", NoStdoutLogging: true, NoStderrLogging: true, NoFileLogging: true})
 		x.Data = o
 	}
@@ -421,6 +442,9 @@ func scenarios(tier string) []scen {
 		}
 		for _, w := range []int{1, 2} {
 			out = append(out, scen{Queue: "lq", Outlinks: set, Workers: w, Batch: 0, P: P + 1, F: 0})
+		}
+		if set == "three" || set == "timed" {
+			out = append(out, scen{Queue: "hq", Outlinks: set, Workers: 2, Batch: 2, P: P, F: F, Conc: 2})
 		}
 	}
 	return out
